@@ -166,7 +166,7 @@ Section Proofs.
       pose proof (apply_writes_frame (white_contempt (st_opts s) (sc_white c))
                     (oracle c nd (relevant V c s)) (search_prologue V s c genOK maxTAfter)) as W.
       cbv zeta in W. destruct W as (W1 & W2 & _ & _ & _ & _ & W7 & _).
-      unfold Inv, set_clearHistory. cbn [st_tt st_opts]. rewrite W1, W2, W7, P1, P2. split; auto.
+      unfold Inv, set_limits, set_clearHistory. cbn [st_tt st_opts]. rewrite W1, W2, W7, P1, P2. split; auto.
     - apply set_option_Inv; auto.
     - apply clear_hash_Inv. exact I.
     - apply clear_hash_Inv; auto.
@@ -186,12 +186,13 @@ Section Proofs.
 
   (** * what Clear Hash leaves behind, field by field of the view *)
   Definition fixedV : bool :=
-    clear_resets_generation V && (clear_clears_evalcache V || evalkey_has_contempt V).
+    clear_resets_generation V && (clear_clears_evalcache V || evalkey_has_contempt V) && go_resets_limits V.
 
-  (** the view with the two components the current code gets wrong masked out *)
+  (** the view with the components that some variant gets wrong masked out *)
+  Definition no_limits : Limits := mkLimits 0 0 0 0 0 false false [].
   Definition mask_view (v : View) : View :=
     mkView (v_slots v) false (v_tableSize v) (v_usedSize v) (v_tb v) (v_contemptHash v) (v_hist v) []
-           (v_opts v) (v_seed v) (v_tbctl v).
+           (v_opts v) (v_seed v) (v_tbctl v) no_limits.
 
   Lemma clear_vs_pristine : forall s s0 c,
     Inv s -> Inv s0 -> Pristine s0 -> st_opts s = st_opts s0 ->
@@ -199,7 +200,7 @@ Section Proofs.
     mask_view (relevant V c (clear_hash V s)) = mask_view (relevant V c s0).
   Proof.
     intros s s0 c [I1 _] [J1 _] (P1 & P2 & P3 & P4 & P5 & P6 & P7 & P8) Ho Hw Hl.
-    unfold mask_view, relevant. cbn [v_slots v_tableSize v_usedSize v_tb v_contemptHash v_hist v_opts v_seed v_tbctl].
+    unfold mask_view, relevant. cbn [v_slots v_tableSize v_usedSize v_tb v_contemptHash v_hist v_opts v_seed v_tbctl v_limits].
     unfold clear_hash. cbn [st_tt st_hist st_opts st_randomSeed st_requiredTime st_evalCache].
     unfold tt_clear. cbn [slots tableSize usedSize tbResident notUsedCnt].
     rewrite P1, P3, P4, P6. rewrite Ho, Hw, Hl. cbn [map].
@@ -225,11 +226,20 @@ Section Proofs.
   Qed.
 
   Lemma view_split : forall v1 v2,
-    mask_view v1 = mask_view v2 -> v_gen0 v1 = v_gen0 v2 -> v_evalStale v1 = v_evalStale v2 -> v1 = v2.
+    mask_view v1 = mask_view v2 -> v_gen0 v1 = v_gen0 v2 -> v_evalStale v1 = v_evalStale v2 ->
+    v_limits v1 = v_limits v2 -> v1 = v2.
   Proof.
-    intros [a1 b1 c1 d1 e1 f1 g1 h1 i1 j1 k1] [a2 b2 c2 d2 e2 f2 g2 h2 i2 j2 k2] Hm Hb Hh.
+    intros [a1 b1 c1 d1 e1 f1 g1 h1 i1 j1 k1 l1] [a2 b2 c2 d2 e2 f2 g2 h2 i2 j2 k2 l2] Hm Hb Hh Hl.
     unfold mask_view in Hm. cbn in *. injection Hm as -> -> -> -> -> -> -> -> ->. subst. reflexivity.
   Qed.
+
+  (** every go assigns all limit members: what an earlier go left is never read *)
+  Lemma go_overwrites_limits : forall o1 o2 g, compute_limits true o1 g = compute_limits true o2 g.
+  Proof. intros. unfold compute_limits. reflexivity. Qed.
+
+  Lemma clear_limits : forall s s0 c, go_resets_limits V = true ->
+    v_limits (relevant V c (clear_hash V s)) = v_limits (relevant V c s0).
+  Proof. intros s s0 c H. unfold relevant. cbn [v_limits]. rewrite H. apply go_overwrites_limits. Qed.
 
   (** ** Clear Hash == fresh start, for every prior history (fixed variants) *)
   Theorem clear_equiv_fresh : forall os h c,
@@ -243,11 +253,13 @@ Section Proofs.
     rewrite run_app. cbn [run fold_left step].
     destruct (init_Inv_Pristine os) as [I0 P0].
     pose proof (run_Inv h _ I0) as I1.
-    unfold fixedV in Hf. apply andb_true_iff in Hf. destruct Hf as [Hg He].
+    unfold fixedV in Hf. apply andb_true_iff in Hf. destruct Hf as [Hf Hlim].
+    apply andb_true_iff in Hf. destruct Hf as [Hg He].
     apply view_split.
     - apply clear_vs_pristine; auto.
     - apply clear_gen0; auto.
     - apply clear_evalStale; auto.
+    - apply clear_limits; auto.
   Qed.
 
   (** ** for EVERY variant: only "generation 0" and stale eval-cache entries can differ *)
@@ -286,7 +298,7 @@ Section Proofs.
   Definition with_irrelevant (s : State) (k : Killers) (ch : N) (b : bool) (nuc : Z) : State :=
     mkState (mkTT (slots (st_tt s)) (generation (st_tt s)) (tableSize (st_tt s)) (usedSize (st_tt s))
                   (tbResident (st_tt s)) nuc ch)
-            (st_hist s) k b (st_evalCache s) (st_matCache s) (st_opts s) (st_randomSeed s) (st_requiredTime s).
+            (st_hist s) k b (st_evalCache s) (st_matCache s) (st_opts s) (st_randomSeed s) (st_requiredTime s) (st_limits s).
 
   Lemma relevant_irrelevant : forall s c k ch b nuc, sc_limited c = true ->
     relevant V c (with_irrelevant s k ch b nuc) = relevant V c s.
@@ -308,8 +320,8 @@ End Proofs.
 
 (** * refutations for the variants that are not fixed: concrete witnesses *)
 Definition no_writes : SearchCmd -> N -> View -> list Write := fun _ _ _ => [].
-Definition probe_cmd : SearchCmd := mkSearchCmd 1 true true false None (-1)%Z.
-Definition prior_cmd : SearchCmd := mkSearchCmd 2 true true false None (-1)%Z.
+Definition probe_cmd : SearchCmd := mkSearchCmd 1 true true false None (-1)%Z (mkGo 9 0 0 0 None false false []).
+Definition prior_cmd : SearchCmd := mkSearchCmd 2 true true false None (-1)%Z (mkGo 0 0 100 0 None false false []).
 
 (** F5: fifteen prior searches; the next search runs with generation 0 *)
 Definition f5_history : list Cmd := repeat (Search prior_cmd 0 true 0%Z) 15.
@@ -322,7 +334,7 @@ Lemma f5_witness :
 Proof. vm_compute. repeat split. Qed.
 
 (** F3: a search under another contempt leaves eval-cache entries that Clear Hash keeps *)
-Definition gen_fixed_only : Variant := mkVariant true false false false.
+Definition gen_fixed_only : Variant := mkVariant true false false false true.
 Definition one_eval_write : SearchCmd -> N -> View -> list Write := fun _ _ _ => [WEval 5 123].
 Definition f3_history : list Cmd :=
   [SetOption OContempt 30%Z; Search prior_cmd 0 true 0%Z; SetOption OContempt 0%Z].
@@ -341,3 +353,15 @@ Lemma f3_same_contempt_transparent :
   v_evalStale (relevant gen_fixed_only probe_cmd
      (run gen_fixed_only one_eval_write [Search prior_cmd 0 true 0%Z; ClearHash] (init gen_fixed_only []))) = [].
 Proof. vm_compute. reflexivity. Qed.
+
+(** a variant in which computeTimeLimit no longer assigns maxNodes on every go: the node limit of an
+    earlier `go nodes 100` is still in force for a later `go depth 9`, also after Clear Hash *)
+Definition limits_not_reset : Variant := mkVariant true true false false false.
+
+Lemma limits_witness :
+  st_opts (run limits_not_reset no_writes [Search prior_cmd 0 true 0%Z] (init limits_not_reset [])) = st_opts (init limits_not_reset []) /\
+  weak (st_opts (init limits_not_reset [])) = false /\ sc_limited probe_cmd = true /\
+  l_maxNodes (v_limits (relevant limits_not_reset probe_cmd
+     (run limits_not_reset no_writes ([Search prior_cmd 0 true 0%Z] ++ [ClearHash]) (init limits_not_reset [])))) = 100%Z /\
+  l_maxNodes (v_limits (relevant limits_not_reset probe_cmd (init limits_not_reset []))) = (-1)%Z.
+Proof. vm_compute. repeat split. Qed.
